@@ -1650,3 +1650,142 @@ func init() {
 		Doc: "the MRO walks of py.Type.IsSubtype and py.Type.Lookup (helpers put back) end early only on a hit: every return/break/goto inside the range loop over an Mro is governed by equality tests, found-flags and nil tests only — never by an ordering comparison or a len(): a C3 linearisation is not sorted by depth",
 		Run: runMroWalkExhaustive})
 }
+
+// ---- C19.R8: nothing probed means not found ----
+//
+// stdlib's path search reports FileNotFoundError under a boolean local ("keep looking" / "found") that the probes
+// assign. When sys.path offers nothing to probe the flag still has its initial value, so that value must select the
+// not-found report — otherwise the search returns success without having found anything and `import missing` ends in
+// the caller's "Missing code object" assertion instead of ImportError.
+func runNotFoundDefault(c *Ctx, r *Rep) {
+	p := c.MustPkg("stdlib")
+	info := p.TypesInfo
+	var fnf types.Object
+	if pp := c.Pkg("py"); pp != nil {
+		fnf = pp.Types.Scope().Lookup("FileNotFoundError")
+	}
+	if fnf == nil {
+		r.undecided("notfound|py.FileNotFoundError", token.NoPos, "exception object not found")
+		return
+	}
+	n := 0
+	for _, f := range c.Files(p) {
+		for _, d := range f.Decls {
+			fd, ok := d.(*ast.FuncDecl)
+			if !ok || fd.Body == nil {
+				continue
+			}
+			var stack []ast.Node
+			ast.Inspect(fd.Body, func(nd ast.Node) bool {
+				if nd == nil {
+					stack = stack[:len(stack)-1]
+					return true
+				}
+				stack = append(stack, nd)
+				rs, ok := nd.(*ast.ReturnStmt)
+				if !ok {
+					return true
+				}
+				mentions := false
+				for _, res := range rs.Results {
+					ast.Inspect(res, func(m ast.Node) bool {
+						if id, ok := m.(*ast.Ident); ok && info.Uses[id] == fnf {
+							mentions = true
+						}
+						return true
+					})
+				}
+				if !mentions {
+					return true
+				}
+				// flags that govern this return
+				for i := len(stack) - 2; i >= 0; i-- {
+					var cond ast.Expr
+					pol := true
+					switch par := stack[i].(type) {
+					case *ast.IfStmt:
+						if par.Body != stack[i+1] && par.Else != stack[i+1] {
+							continue
+						}
+						pol = par.Body == stack[i+1]
+						cond = unparen(par.Cond)
+					case *ast.CaseClause:
+						// `case flag:` of a switch without a tag
+						if i < 2 || len(par.List) != 1 {
+							continue
+						}
+						if sw, ok := stack[i-2].(*ast.SwitchStmt); !ok || sw.Tag != nil {
+							continue
+						}
+						cond = unparen(par.List[0])
+					default:
+						continue
+					}
+					if u, ok := cond.(*ast.UnaryExpr); ok && u.Op == token.NOT {
+						cond, pol = unparen(u.X), !pol
+					}
+					id, ok := cond.(*ast.Ident)
+					if !ok {
+						continue
+					}
+					v, ok := info.Uses[id].(*types.Var)
+					if !ok || v.IsField() || v.Parent() == v.Pkg().Scope() {
+						continue
+					}
+					// its initial value
+					init, found := "false", false
+					ast.Inspect(fd.Body, func(m ast.Node) bool {
+						switch x := m.(type) {
+						case *ast.ValueSpec:
+							for k, nm := range x.Names {
+								if info.Defs[nm] == v {
+									found = true
+									if k < len(x.Values) {
+										init = exprStr(x.Values[k])
+										if tv, ok := info.Types[x.Values[k]]; ok && tv.Value != nil {
+											init = tv.Value.String()
+										}
+									}
+								}
+							}
+						case *ast.AssignStmt:
+							if x.Tok == token.DEFINE && len(x.Lhs) == len(x.Rhs) {
+								for k, l := range x.Lhs {
+									if lid := identOf(l); lid != nil && info.Defs[lid] == v {
+										found = true
+										init = exprStr(x.Rhs[k])
+										if tv, ok := info.Types[x.Rhs[k]]; ok && tv.Value != nil {
+											init = tv.Value.String()
+										}
+									}
+								}
+							}
+						}
+						return true
+					})
+					if !found || (init != "true" && init != "false") {
+						continue // a parameter, a named result, or initialised from a computation: not this rule's shape
+					}
+					n++
+					want := "false"
+					if pol {
+						want = "true"
+					}
+					r.check(init == want, fmt.Sprintf("notfound|%s|flag %s starts at the not-found value", declID(p, fd), id.Name), rs.Pos(),
+						fmt.Sprintf("`%s` starts as %s, which selects the FileNotFoundError report when nothing is probed", id.Name, init),
+						fmt.Sprintf("the FileNotFoundError report is made when `%s` is %s, but `%s` starts as %s: when the search path offers nothing to probe (empty sys.path, no str entries) the function returns success without having found anything, and the import ends in the caller's \"Missing code object\" assertion instead of ImportError", id.Name, want, id.Name, init))
+				}
+				return true
+			})
+		}
+	}
+	if n == 0 {
+		r.ok("notfound|no flag-governed report", token.NoPos, "no FileNotFoundError report in stdlib is governed by a boolean local with a constant initial value: nothing to decide in this shape")
+	}
+}
+
+func init() {
+	register(&Rule{ID: "C19.R8", Prop: "C19", Floor: 1,
+		Doc: "path search default: where stdlib returns FileNotFoundError under a boolean local with a constant initial value (the probes' keep-looking / found flag), the initial value is the one that selects the report — no probe at all means not found, never success",
+		Run: runNotFoundDefault})
+}
